@@ -730,6 +730,6 @@ pub fn all_mutators() -> Vec<(&'static str, Mutator)> {
         ("cert_two_registrations", super::vcert::cert_two_registrations), ("cstate_edit", super::vcert::cstate_edit), ("cstate_edit", super::vcert::cstate_edit),
         ("acnt_edge", super::vcert::acnt_edge), ("cert_pp_edge", super::vcert::cert_pp_edge), ("cert_slot_edge", super::vcert::cert_slot_edge), ("cert_retire_edge", super::vcert::cert_retire_edge), ("mint_boundary", super::vm2::mint_boundary), ("mint_boundary", super::vm2::mint_boundary),
         ("qty_boundary", super::vm2::qty_boundary), ("native_script_inject", super::vm2::native_script_inject), ("native_script_inject", super::vm2::native_script_inject),
-        ("addr_tiny", super::vm2::addr_tiny), ("addr_tiny", super::vm2::addr_tiny), ("cert_gendeleg_edge", super::vcert::cert_gendeleg_edge), ("sh_counts", sh_counts), ("b_wit_len_consistent", b_wit_len_consistent), ("b_wit_len", b_wit_len), ("b_wit_flip", b_wit_flip), ("b_wit_remove", b_wit_remove), ("b_wit_swap_kind", b_wit_swap_kind),
+        ("addr_tiny", super::vm2::addr_tiny), ("addr_tiny", super::vm2::addr_tiny), ("empty_collection", super::vm2::empty_collection), ("empty_collection", super::vm2::empty_collection), ("cert_gendeleg_edge", super::vcert::cert_gendeleg_edge), ("sh_counts", sh_counts), ("b_wit_len_consistent", b_wit_len_consistent), ("b_wit_len", b_wit_len), ("b_wit_flip", b_wit_flip), ("b_wit_remove", b_wit_remove), ("b_wit_swap_kind", b_wit_swap_kind),
     ]
 }
